@@ -269,20 +269,56 @@ TOKEN_SINKS = ("str::<impl str>::parse", "core::str::<impl str>::parse", "FromSt
 TOKEN_STRUCTS = ("policies::fetch::RouteFilter", "policies::fetch::TermFrom", "policies::fetch::Term")
 
 
+TRIM_FNS = ("str::<impl str>::trim", "core::str::<impl str>::trim", "str::<impl str>::trim_ascii")
+UNESCAPE_FNS = ("quick_xml::escape::unescape", "escape::unescape", "BytesText::<'a>::unescape")
+# calls whose result does not carry the text on (so taint stops): comparisons / predicates / consumers
+NON_CARRYING = ("PartialEq::eq", "PartialEq::ne", "str::<impl str>::is_empty", "str::<impl str>::len", "NsReader::<&'i [u8]>::read_to_end",
+                "NsReader::<R>::read_to_end", "str::<impl str>::starts_with", "str::<impl str>::ends_with", "str::<impl str>::contains")
+
+
+def sanitiser_wrappers(fx, sanit):
+    """Workspace functions that are wrappers of a sanitiser: every value flowing from a parameter to the return place passes through
+    a call in `sanit` (with `sanit` as a barrier the return place is no longer tainted by any parameter), and the sanitiser is called."""
+    out = set()
+    for name, b in fx.mir.items():
+        if b.crate not in CRATES or "::tests::" in name or "{closure" in name:
+            continue
+        argc = b.raw["arg_count"]
+        if argc == 0 or argc > 2:
+            continue
+        calls = [c for c in b.calls() if not c.macro]
+        if not any(c.is_fn(*sanit) for c in calls):
+            continue
+        t = b.forward_taint(list(range(1, argc + 1)), through_call=lambda x: not x.is_fn(*sanit) and not x.is_fn(*NON_CARRYING))
+        if 0 not in t:
+            out.add(name)
+    return out
+
+
 def text_uses(fx):
-    """For every read_text call: which token sinks its value reaches without `trim` / without `unescape`."""
+    """For every read_text call: which token sinks its value reaches without `trim` / without `unescape`.
+
+    Taint propagates through *every* call (an unknown helper or a `trim_matches` with a home-made character set does not count as
+    trimming) except the recognised sanitiser of the mode, verified wrappers of it, and result-less predicates."""
     out = []
+    wrappers = {"untrimmed": sanitiser_wrappers(fx, TRIM_FNS), "unescaped": sanitiser_wrappers(fx, UNESCAPE_FNS)}
     for name, b in sorted(fx.mir.items()):
         if b.crate not in CRATES or "::tests::" in name:
             continue
         for c in b.calls():
             if not c.is_fn("NsReader::<&'i [u8]>::read_text", "NsReader::<R>::read_text") or c.macro:
                 continue
-            rec = {"fn": name, "call": c, "untrimmed": [], "unescaped": [], "all_sinks": []}
-            for mode, sanit in (("untrimmed", ("str::<impl str>::trim", "core::str::<impl str>::trim")),
-                                ("unescaped", ("quick_xml::escape::unescape", "escape::unescape", "BytesText::<'a>::unescape"))):
-                through = lambda x, sanit=sanit: x.is_fn(*PRESERVING) or (mode == "unescaped" and x.is_fn("str::<impl str>::trim")) \
-                    or (mode == "untrimmed" and x.is_fn("escape::unescape"))
+            rec = {"fn": name, "call": c, "untrimmed": [], "unescaped": [], "all_sinks": [], "wrappers": sorted(wrappers["untrimmed"] | wrappers["unescaped"])}
+            for mode, sanit in (("untrimmed", TRIM_FNS), ("unescaped", UNESCAPE_FNS)):
+                wr = wrappers[mode]
+                def through(x, sanit=sanit, wr=wr):
+                    if x.macro:
+                        return False
+                    if x.is_fn(*sanit) or x.is_fn(*NON_CARRYING):
+                        return False
+                    if x.rdef in wr or x.defn in wr:
+                        return False
+                    return True
                 t = b.forward_taint([c.dest["l"]], through_call=through)
                 sinks = []
                 for x in b.calls():
